@@ -24,6 +24,6 @@ def typeKindTable : List (String × String) := [("scalar", "SCALAR"), ("object",
 def metaFieldNames : List String := ["__schema", "__type", "__typename"]
 
 /-- `field_definition`: the if/elif chain inside the meta branch: (target, tested name, requires query type) -/
-def metaChain : List (String × String × Bool) := [("disabled", "", false), ("SCHEMA_INTROSPECTION_FIELD", "__schema", true), ("TYPE_INTROSPECTION_FIELD", "__type", true), ("TYPE_NAME_INTROSPECTION_FIELD", "__typename", false)]
+def metaChain : List (String × String × Bool) := [("disabled", "", false), ("SCHEMA_INTROSPECTION_FIELD", "__schema", true), ("NONE", "__schema", false), ("TYPE_INTROSPECTION_FIELD", "__type", true), ("NONE", "__type", false), ("TYPE_NAME_INTROSPECTION_FIELD", "__typename", false)]
 
 end PyGql.Generated.Introspection
